@@ -13,12 +13,92 @@ import hashlib
 import itertools
 import json
 import random
+import re
+import subprocess
 
 from vcheck import core
 from vcheck.val import Exc, from_jsonable, jsonable, zstr
 
 PROP = "C13"
-COQ_TARGETS = ["theories/Model/DataStoreRun.vo"]
+COQ_TARGETS = ["theories/Model/DataStoreRun.vo", "theories/Proofs/DsNamesEq.vo"]
+MODEL_TARGETS = ["theories/Model/DataStoreRun.vo"]
+TRANSLATOR = "harness/translators/ds_names.py"
+
+
+# ------------------------------------------------------------------ translator tie (identifier / file-name computations)
+
+def run_translator():
+    """regenerate gen/DsNamesGen.v from the current source text; returns (error string or None, records)"""
+    core.GEN.mkdir(exist_ok=True)
+    rec = core.GEN / "DsNamesGen.records.json"
+    if rec.exists():
+        rec.unlink()
+    r = subprocess.run([core.PY, str(core.VERIF / TRANSLATOR), "--repo", str(core.REPO), "--records", str(rec)],
+                       capture_output=True, text=True, env=core.impl_env(), cwd=str(core.VERIF))
+    out = core.GEN / "DsNamesGen.v"
+    if r.returncode != 0:
+        return (r.stderr or r.stdout).strip()[-800:] or f"translator exited with {r.returncode}", []
+    if not r.stdout.rstrip().endswith("End DsNamesGen."):
+        return "translator produced truncated output", []
+    if not out.exists() or out.read_text() != r.stdout:
+        out.write_text(r.stdout)
+    try:
+        records = json.loads(rec.read_text())
+    except (OSError, ValueError) as e:
+        return f"translator wrote no function records: {e}", []
+    return None, records
+
+
+def pre_build():
+    err, _ = run_translator()
+    if err:
+        raise core.CheckError("ds_names translator failed: " + err)
+
+
+def explain_tie_break(problem):
+    """a build failure inside DsNamesEq.v / DsNamesGen.v is a broken translator tie: name the lemma / generated function"""
+    m = re.search(r"(Proofs/DsNamesEq\.v|gen/DsNamesGen\.v):(\d+)", problem)
+    if not m:
+        return problem
+    path = core.COQ / ("theories/" + m.group(1) if m.group(1).startswith("Proofs") else m.group(1))
+    try:
+        lines = path.read_text().split("\n")[: int(m.group(2))]
+    except OSError:
+        return problem
+    lemma = None
+    for ln in lines:
+        mm = re.match(r"(?:Lemma|Definition)\s+(\w+)", ln)
+        if mm:
+            lemma = mm.group(1)
+    what = ("the name computation generated from the current source is no longer provably equal to the function of "
+            "Model/DataStore.v / Model/SqlStore.v" if m.group(1).startswith("Proofs") else "the generated Gallina does not type-check")
+    return f"translator tie broken at {lemma}: {what} ({problem})"
+
+
+def tie_report(terr, records, pr):
+    """coverage['translator_tie']: what was translated and whether equality with the model was proved in this run"""
+    src = core.strip_comments((core.COQ / "theories" / "Proofs" / "DsNamesEq.v").read_text())
+    lemmas = re.findall(r"Lemma\s+(\w+_eq|drop_loop_gen|re_sub_is_replace_comp)\b", src)
+    gen_thms = [t for t in pr.get("theorems", {}) if t.startswith("gen_")]
+    proved = terr is None and not pr.get("problems") and bool(gen_thms) and all(pr["theorems"][t]["ok"] for t in gen_thms)
+    if terr is not None:
+        status = "broken: translator failed closed: " + terr
+    elif pr.get("problems"):
+        status = "broken: " + "; ".join(str(x) for x in pr["problems"])[:600]
+    else:
+        status = "ok"
+    return dict(
+        status=status, translator=TRANSLATOR, generated="coq/gen/DsNamesGen.v (module DsNamesGen)",
+        equality_file="coq/theories/Proofs/DsNamesEq.v", equality_with_model_proved=proved,
+        equality_lemmas=lemmas if proved else [], transported_theorems=gen_thms if proved else [],
+        functions=records,
+        reading="str = list of code points; `if s` = s != ''; Path(x).name/.stem/.suffix = Lib/Chars.v path_name/path_stem/path_suffix; "
+                "(p / x).name = Path(x).name, str(Path(a) / x) = a + '/' + x (x a non-empty relative name); rf'[.]{re.escape(E)}(?=[.]|$)' = "
+                "Lib/PyStr.v re_sub_dot_lit_la (left-to-right scan; proved to be dotted-component replacement for E without '.'); "
+                "rf'[.](A|B)$' = re_sub_dot_alts_end (longest alternative; unescaped alternatives are plain text); "
+                "re.compile(r'\\.(log|json)$').search = re_search_dot_alts_end; no newline in identifiers; get_format_suffixes is not "
+                "translated: the hash of its text is pinned and it is read as Model.DataStore.get_format_suffixes",
+    )
 
 NC_PREFIX = "not_completed/"
 
@@ -495,6 +575,10 @@ TRUSTED = [
     "pathlib name/stem/suffix, str.replace/endswith/in, and the regular expressions are re-modelled on code-point lists "
     "(identifiers: no '/', no newline, no leading '.', lower-case ASCII; suffix: [a-z0-9]+, not a compression suffix)",
     "directory listing order is pinned to name order in the implementation runner (Path.glob sorted)",
+    "translator harness/translators/ds_names.py: trusted to emit Gallina that means what the Python text of the identifier / "
+    "file-name computations means, for the small fragment it accepts (str methods, f-strings, Path name/stem/suffix, `/`, the two "
+    "re.sub pattern shapes, ==, is None, and/or/not, if/else); anything else that reaches an extracted name aborts the translation; "
+    "the Python readings of Lib/PyStr.v (rstrip/strip/removesuffix/regular expressions)",
     "the directory refinement theorems are about the model variant `repaired` (all six proposed patches "
     "notes/proposed_fixes/C13-1..6.diff applied), the sqlite one about every variant with C13-6; which variant the tree under "
     "test is, is measured by this run from six witness histories (coverage.variant) and the model with exactly these flags "
@@ -516,8 +600,23 @@ PARTIAL = [
 def run(tier: str, seed: int) -> int:
     rep = core.Report(PROP, tier, seed)
     rng = random.Random(seed * 7919 + 13)
-    pr = core.proof_stage(PROP, COQ_TARGETS)
-    core.proof_coverage(rep, pr, "make theories/Properties/C13.vo && coqc gen/assum_C13.v (Print Assumptions)", TRUSTED)
+    # gen/DsNamesGen.v is shared by every run: concurrent C13 runs against different source trees (seeded-change tests) must
+    # not build against each other's translation, so regenerate + build + Print Assumptions happen under one lock
+    core.GEN.mkdir(exist_ok=True)
+    with core._Lock(core.GEN / ".c13_dsnames.lock"):
+        terr, records = run_translator()
+        if terr is None:
+            pr = core.proof_stage(PROP, COQ_TARGETS)
+        else:
+            # the source left the translatable fragment: no proof obligation counts as discharged, the tie is reported broken
+            # and the decision falls to the (widened) behavioural correspondence below
+            pr = {"obligations": len(core.property_theorems(PROP)), "discharged": 0, "theorems": {},
+                  "problems": ["translator tie broken: ds_names failed closed: " + terr]}
+        if pr["problems"]:
+            core.make(MODEL_TARGETS)          # the model itself does not depend on the generated file: keep it runnable
+            pr["problems"] = [explain_tie_break(x) for x in pr["problems"]]
+    core.proof_coverage(rep, pr, "ds_names.py > gen/DsNamesGen.v && make theories/Properties/C13.vo && coqc gen/assum_C13.v "
+                                 "(Print Assumptions)", TRUSTED)
     proof_broken = bool(pr["problems"])
     flags = probe_variant()
     cases = build_cases(tier, rng, widen=4 if proof_broken else 1)
@@ -582,6 +681,7 @@ def run(tier: str, seed: int) -> int:
         model_impl_disagreements=ndis, spec_violations=nvio, violation_keys=keys_seen,
         variant={"flags": flags, "is_repaired": all(flags.values()), "is_pinned": not any(flags.values())},
         partial=PARTIAL,
+        translator_tie=tie_report(terr, records, pr),
         exhaustive=True,
     )
     core.conclude(rep, pr, f"{len(cases)} histories / {njudged} transitions against the dictionary oracle", [],
